@@ -338,3 +338,6 @@ Proof.
   intros e1 e2 [|d1 d2 d3 d4 age file|off s age file|bid|raw]; cbn [enc_cv]; try reflexivity;
     rewrite !zlen_app; f_equal; apply enc_zlen_endian.
 Qed.
+
+Lemma cvrec_none_dec : forall c : cvrec, {c = CvNone} + {c <> CvNone}.
+Proof. intros [| | | |]; [left; reflexivity|right; discriminate..]. Qed.
